@@ -163,3 +163,60 @@ func VH_C10_append_crash() {
 	}
 	vReach("end")
 }
+
+// ---- the real findSnapshots / openSnapshots over a directory listing (stub set "globfs") ----
+
+//verif:stub globfs path/filepath.Glob vGlobNamesFn
+//verif:stub globfs os.MkdirAll vMkdirAll
+
+var vGlobNames []string
+
+func vGlobNamesFn(pattern string) ([]string, error) { return vGlobNames, nil }
+
+func vDec(v uint64) string {
+	if v == 0 {
+		return "0"
+	}
+	var b []byte
+	for v > 0 {
+		b = append([]byte{byte('0' + v%10)}, b...)
+		v /= 10
+	}
+	return string(b)
+}
+
+//verif:check C10,C18 stubs=globfs reach=listed,end desc="the real findSnapshots over a directory listing in arbitrary order: every published snapshot index is parsed back exactly from its file name and the list is newest first, so a restart picks the latest snapshot" bounds="2 meta files with 1..3 free decimal digits each plus one file with a fixed boundary index (2^63 or 2^64-1), listed in any order"
+func VH_C10_findSnapshots() {
+	var want []uint64
+	vGlobNames = nil
+	for f := 0; f < 2; f++ {
+		n := 1 + vChoice(3)
+		d := vBytes("digits", n)
+		var v uint64
+		for k := 0; k < n; k++ {
+			vAssume(d[k] >= '0' && d[k] <= '9')
+			v = v*10 + uint64(d[k]-'0')
+		}
+		vAssume(vImp(n > 1, d[0] != '0'))
+		want = append(want, v)
+		vGlobNames = append(vGlobNames, vDir+"/snapshots/"+string(d)+".meta")
+	}
+	big := []uint64{1 << 63, 1<<64 - 1}[vChoice(2)]
+	want = append(want, big)
+	name := vDir + "/snapshots/" + vDec(big) + ".meta"
+	if vChoice(2) == 0 {
+		vGlobNames = append(vGlobNames, name)
+	} else {
+		vGlobNames = append([]string{name}, vGlobNames...)
+	}
+	vAssume(want[0] != want[1]) // two files cannot share a name
+	got, err := findSnapshots(vDir + "/snapshots")
+	vAssert(err == nil && len(got) == 3, "FS-lists-every-published-snapshot")
+	vReach("listed")
+	vAssert(got[0] == big, "FS-latest-snapshot-first")
+	vAssert(got[0] > got[1] && got[1] > got[2], "FS-newest-to-oldest")
+	for _, v := range want {
+		vAssert(vOr(got[0] == v, vOr(got[1] == v, got[2] == v)), "FS-index-parsed-back-exactly")
+	}
+	vReach("end")
+}
